@@ -7624,6 +7624,11 @@ class TensorDictBase(MutableMapping):
             >>> assert (td == td_unflat).all()
         """
         dim = _maybe_correct_neg_dim(dim, self.batch_size)
+        if any(size < 0 for size in unflattened_size):
+            # resolve the -1 entry as torch.unflatten does: it must not end up in the batch size
+            unflattened_size = infer_size_impl(
+                list(unflattened_size), self.batch_size[dim]
+            )
 
         def unflatten(tensor):
             return torch.unflatten(
